@@ -6,8 +6,8 @@ from .grouplike import sf
 
 PROPERTY = "C12"
 LEVEL = "other"
-CONFIGS_QUICK = ["std", "alloc"]
-CONFIGS_THOROUGH = ["std", "alloc"]
+CONFIGS_QUICK = ["std", "alloc", "std-rel"]
+CONFIGS_THOROUGH = ["std", "alloc", "std-rel", "alloc-rel"]
 EXPLANATION = (
     "Inductive-invariant check on the MIR of StreamGroup (same representation invariant as FutureGroup): INSERT / RESERVE / REMOVE / "
     "EMPTY / VIEW / POLL as for C11, plus (ITEM) on a member's Ready(Some) edge the yielded value is Ready(Some((Key(i), that item))) "
